@@ -14,13 +14,31 @@ type hashCall struct {
 	alg string
 	in  []*Term
 	out []*Term
+	concrete bool // concrete input, real digest (constants)
 }
 
 // hashUF applies the uninterpreted hash `alg` (output n bytes) to in, adding functional-consistency
 // and collision-freeness axioms against every earlier application on this path.
 func (w *Worker) hashUF(alg string, n int, in []*Term) []*Term {
 	T := w.T
-	// fully concrete input: the real digest (consistent with the collision-freeness idealisation)
+	// an application seen before on this path (same input terms) has the same output
+	for _, h := range w.hashes {
+		if h.alg == alg && len(h.in) == len(in) {
+			same := true
+			for i := range in {
+				if h.in[i] != in[i] {
+					same = false
+					break
+				}
+			}
+			if same {
+				return h.out
+			}
+		}
+	}
+	// fully concrete input: the real digest.  It is recorded like every other application, so that the
+	// collision-freeness axioms also relate it to the uninterpreted outputs: a symbolic digest may equal
+	// this constant only if its input equals this input.
 	if cs, ok := concreteStr(Str{in}); ok {
 		var d []byte
 		switch alg {
@@ -39,21 +57,26 @@ func (w *Worker) hashUF(alg string, n int, in []*Term) []*Term {
 			for i, b := range d {
 				out[i] = T.Const(8, uint64(b))
 			}
-			return out
-		}
-	}
-	for _, h := range w.hashes {
-		if h.alg == alg && len(h.in) == len(in) {
-			same := true
-			for i := range in {
-				if h.in[i] != in[i] {
-					same = false
-					break
+			for _, h := range w.hashes {
+				if h.alg != alg || h.concrete {
+					continue
 				}
+				outEq := T.True
+				for i := range out {
+					outEq = T.And(outEq, T.Eq(out[i], h.out[i]))
+				}
+				if len(h.in) != len(in) {
+					w.assume(T.Not(outEq))
+					continue
+				}
+				inEq := T.True
+				for i := range in {
+					inEq = T.And(inEq, T.Eq(in[i], h.in[i]))
+				}
+				w.assume(T.Eq(inEq, outEq))
 			}
-			if same {
-				return h.out
-			}
+			w.hashes = append(w.hashes, &hashCall{alg: alg, in: append([]*Term{}, in...), out: out, concrete: true})
+			return out
 		}
 	}
 	id := len(w.hashes)
@@ -118,7 +141,7 @@ func (w *Worker) appendTerms(dst SliceV, ts []*Term) SliceV {
 	for i, t := range ts {
 		vals[i] = t
 	}
-	return w.appendVals(dst, vals)
+	return w.appendVals(dst, vals, 1, true)
 }
 
 func byteTerms(w *Worker, v Value) []*Term {
